@@ -12,6 +12,7 @@ package intdataplane
 import (
 	"fmt"
 	"sort"
+	"strings"
 	"sync"
 	"time"
 
@@ -87,16 +88,51 @@ func (c c40Cfg) sig() string {
 
 func (c c40Cfg) nft() bool { return c.Kind == "nft" }
 
-// failsafe list variants. "two" has a second entry restricted to a CIDR (exercises the Net branch) and a
-// different protocol.
+// failsafe list variants.
+//
+//	none  empty list
+//	one   tcp:22
+//	two   tcp:22, udp:53 restricted to the IPv4 CIDR 10.9.0.0/16 (the Net branch)
+//	mixF / mixM / mixL   the three entries tcp:22, udp:10.9.0.0/16:53 and tcp:[fd00:10:96::/112]:6443 ordered so
+//	      that, seen from the IPv4 tables, the other-family (IPv6) CIDR entry is First / in the Middle / Last -
+//	      and, seen from the IPv6 tables, the other-family (IPv4) CIDR entry is in the Middle / Last / First.
+//
+// For one IP family the effective content of every mix variant is the same: tcp:22 plus that family's CIDR entry.
+const (
+	c40FailsafeNet4 = "10.9.0.0/16"
+	c40FailsafeNet6 = "fd00:10:96::/112"
+)
+
 func c40Failsafe(variant string) []config.ProtoPort {
+	ssh := config.ProtoPort{Protocol: "tcp", Port: 22}
+	dns4 := config.ProtoPort{Protocol: "udp", Port: 53, Net: c40FailsafeNet4}
+	api6 := config.ProtoPort{Protocol: "tcp", Port: 6443, Net: c40FailsafeNet6}
 	switch variant {
 	case "one":
-		return []config.ProtoPort{{Protocol: "tcp", Port: 22}}
+		return []config.ProtoPort{ssh}
 	case "two":
-		return []config.ProtoPort{{Protocol: "tcp", Port: 22}, {Protocol: "udp", Port: 53, Net: "10.9.0.0/16"}}
+		return []config.ProtoPort{ssh, dns4}
+	case "mixF":
+		return []config.ProtoPort{api6, dns4, ssh}
+	case "mixM":
+		return []config.ProtoPort{ssh, api6, dns4}
+	case "mixL":
+		return []config.ProtoPort{dns4, ssh, api6}
 	}
 	return nil
+}
+
+// c40FailsafeHas: does the variant's list contain the entry (by its class name)?
+func c40FailsafeHas(variant, entry string) bool {
+	switch entry {
+	case "ssh":
+		return variant != "none" && variant != ""
+	case "dns4":
+		return variant == "two" || strings.HasPrefix(variant, "mix")
+	case "api6":
+		return strings.HasPrefix(variant, "mix")
+	}
+	return false
 }
 
 func (c c40Cfg) rulesConfig() rules.Config {
